@@ -47,7 +47,7 @@ inductive StepNext (env : Env) (nt : Ctx → Ctx × Outcome Tok) (c c' : Cfg) : 
       (hnt : nt (reduceCtx c s') = (ctx1, .ok tk))
       (hc : c' = ⟨⟨s', reduceSpan (c.stack.take len) c.ctx.span⟩ :: c.stack.drop len,
                   reduceNode c p len :: c.res.drop len, some (reduceSlice c len),
-                  { ctx1 with lay := c.ctx.lay }, tk, c.hist⟩)
+                  { ctx1 with lay := mergeLay c.ctx.lay c.ctx.pos.pos ctx1.pos.pos }, tk, c.hist⟩)
 
 theorem liftTok_next_none {hist : List Tok} {stack : List StackItem} {res : List Tree}
     {slice : Option Slice} {r : Ctx × Outcome Tok} {c' : Cfg}
@@ -61,9 +61,10 @@ theorem liftTok_next_none {hist : List Tok} {stack : List StackItem} {res : List
   all_goals simp at h
 
 theorem liftTok_next_some {hist : List Tok} {stack : List StackItem} {res : List Tree}
-    {slice : Option Slice} {r : Ctx × Outcome Tok} {l : Option Slice} {c' : Cfg}
-    (h : liftTok hist stack res slice r (some l) = .next c') :
-    ∃ ctx1 tk, r = (ctx1, .ok tk) ∧ c' = ⟨stack, res, slice, { ctx1 with lay := l }, tk, hist⟩ := by
+    {slice : Option Slice} {r : Ctx × Outcome Tok} {l : Option Slice} {p : Nat} {c' : Cfg}
+    (h : liftTok hist stack res slice r (some (l, p)) = .next c') :
+    ∃ ctx1 tk, r = (ctx1, .ok tk) ∧
+      c' = ⟨stack, res, slice, { ctx1 with lay := mergeLay l p ctx1.pos.pos }, tk, hist⟩ := by
   unfold liftTok at h
   split at h
   · rename_i ctx1 tk
@@ -162,7 +163,7 @@ inductive StepStop (env : Env) (nt : Ctx → Ctx × Outcome Tok) (c : Cfg) (ctx 
       (ho : (∀ e, o' = .err e → o = .err e) ∧ (∀ s, o' = .panic s → o = .panic s) ∧ (o' = .fuel → o = .fuel))
 
 theorem liftTok_stop_inv {hist : List Tok} {stack : List StackItem} {res : List Tree}
-    {slice : Option Slice} {r : Ctx × Outcome Tok} {k : Option (Option Slice)} {ctx : Ctx}
+    {slice : Option Slice} {r : Ctx × Outcome Tok} {k : Option (Option Slice × Nat)} {ctx : Ctx}
     {o : Outcome ParseResult} (h : liftTok hist stack res slice r k = .stop ctx o) :
     ∃ o', r = (ctx, o') ∧ (∀ tk, o' ≠ .ok tk) ∧
       (∀ e, o' = .err e → o = .err e) ∧ (∀ s, o' = .panic s → o = .panic s) ∧ (o' = .fuel → o = .fuel) := by
@@ -248,7 +249,7 @@ theorem step_reduce_intro (env : Env) (nt : Ctx → Ctx × Outcome Tok) (c : Cfg
     step env nt c =
       .next ⟨⟨s', reduceSpan (c.stack.take len) c.ctx.span⟩ :: c.stack.drop len,
              reduceNode c p len :: c.res.drop len, some (reduceSlice c len),
-             { ctx1 with lay := c.ctx.lay }, tk, c.hist⟩ := by
+             { ctx1 with lay := mergeLay c.ctx.lay c.ctx.pos.pos ctx1.pos.pos }, tk, c.hist⟩ := by
   unfold step
   have h1 : ¬ c.stack.length < len := by omega
   have h2 : ¬ c.res.length < len := by omega
